@@ -48,6 +48,12 @@ class World(object):
     def __init__(self, sv, rnd):
         self.calls = {}
         self.cfg = jsonrpclib.config.Config(version=1.0 if sv == "1" else 2.0)
+        if rnd.random() < 0.5:
+            # a serialisation handler that refuses the value it is given: the reply is the conversion error, as without
+            # it, and the Config is left exactly as it was
+            def refusing(obj, serialize_method, ignore_attribute, ignore, config):
+                raise TypeError("cannot serialise this")
+            self.cfg.serialize_handlers[Unconvertible] = refusing
         self.d = SimpleJSONRPCDispatcher(config=self.cfg)
         self.cfg0 = cfg_snapshot(self.cfg)
         self.default0 = cfg_snapshot(jsonrpclib.config.DEFAULT)
@@ -58,8 +64,9 @@ class World(object):
             w.calls[j] = w.calls.get(j, 0) + 1
         for j in range(1, NALIAS + 1):
             def ok(*a, **k):
-                rec(k.pop("_j"))
-                return {"echo": list(a), "kw": k}
+                jj = k.pop("_j")
+                rec(jj)
+                return None if jj == NALIAS else {"echo": list(a), "kw": k}        # (one alias is a void method)
             ok = (lambda f, jj: (lambda *a, **k: f(*a, _j=jj, **k)))(ok, j)
             ecls = rnd.choice(EXC + [CustomError])
             etext = rnd.choice(["boom", "bad value 42", "x y z", "é fail"])
@@ -124,7 +131,7 @@ class World(object):
             return Unconvertible()
         if isinstance(method, str) and method.startswith("retfault"):
             return jsonrpclib.Fault(-32050, "user fault")
-        return ["custom", j]
+        return None if j == NALIAS else ["custom", j]
 
 
 def method_name(mc, j, rnd):
@@ -285,7 +292,7 @@ def run_body(text, sv, dk, rnd, src, world=None, jc=None, pre=None, foreign=None
             msg = rep["error"].get("message")
             ok_t = ok_x = False
             if isinstance(msg, str):
-                for (tn, tx) in list(world.excinfo.values()) + [("RuntimeError", "custom boom"), ("ValueError", "cannot serialise this")]:
+                for (tn, tx) in list(world.excinfo.values()) + [("RuntimeError", "custom boom"), ("ValueError", "cannot serialise this"), ("TypeError", "cannot serialise this")]:
                     if tn in msg and tx in msg:
                         ok_t = ok_x = True
         flags.append({"hasType": ok_t, "hasText": ok_x})
